@@ -3,7 +3,7 @@ from runner.core import Context, finish
 
 MODULES = ['contracts.checkfiles']
 PID = 'C15'
-LEVEL = 'proof'
+LEVEL = 'other'
 
 
 def targets():
